@@ -382,6 +382,11 @@ class Runner:
         UnregisterCallback = self.fc.UnregisterCallback
 
         def act():
+            for target in spec.get('removes', ()):       # the callback unregisters callbacks (itself, others) while it runs
+                tspec = self.cbs[target]
+                tkey = tuple(tspec['key']) if isinstance(tspec['key'], list) else tspec['key']
+                tname = 'updateItem' if tspec['kind'] == 'item' else 'updateEvent'
+                self.client.unregister_callback(tkey, **{tname: self.funcs[target]})
             if behave == 'raises':
                 raise ValueError('callback %d raises' % cbid)
             if behave == 'unregister':
@@ -503,7 +508,8 @@ def client_trees(desc, desc_key):
 def requests_for(desc, desc_key, maps, case, steps):
     wired = wire_events(case)
     base = {'p': PROP, 'desc': desc_summary(desc), 'dts': client_trees(desc, desc_key),
-            'behave': [[int(k), v['behave']] for k, v in case['cbs'].items()], 'evs': wired}
+            'behave': [[int(k), v['behave'], [[case['cbs'][str(x)]['kind'], case['cbs'][str(x)]['key'], x] for x in v.get('removes', ())]]
+                       for k, v in case['cbs'].items()], 'evs': wired}
     obs = [{'calls': st['calls'], 'cache': st['cache']} for st in steps]
     return dict(base, k='run'), dict(base, k='judge', steps=obs), wired
 
@@ -696,6 +702,9 @@ def gen_case(rng, desc, big):
     for cbid in range(1, rng.randint(2, 9 if big else 7)):
         cbs[str(cbid)] = {'kind': rng.choice(['item', 'event']), 'key': rng.choice(keys[:-2] * 3 + keys[-2:]),
                           'behave': rng.choice(['ok'] * 6 + ['raises', 'raises', 'unregister'])}
+    for cbid, spec in cbs.items():          # some callbacks call unregister_callback while they run: for themselves, for others
+        if rng.random() < 0.25:
+            spec['removes'] = [int(rng.choice([cbid] + list(cbs) * 2)) for _ in range(rng.choice([1, 1, 2]))]
     events = []
     now = rng.choice([100.0, 1000.25, 5.0])
     live = []
